@@ -520,6 +520,40 @@ def envelope_family(W, base, n):
     return sample(W, out, n)
 
 
+def envelope_cross(W, base):
+    """Every scenario of `base` under EVERY envelope (no sampling: what is detected must not depend on the seed)."""
+    out = []
+    for sc in base:
+        for e2 in ENVELOPES:
+            v = json.loads(json.dumps(sc))
+            v["id"] = "%s/env-%s" % (sc["id"], e2)
+            v["cfg"]["env"] = e2
+            v["tags"] = list(v.get("tags", [])) + ["envelope"]
+            for st in v["steps"]:
+                st.pop("expect", None)
+            out.append(v)
+    return out
+
+
+def envelope_late(W, base):
+    """Every scenario of `base` with the login made by plain navigations and every LATER request of the scenario (the single
+    checks that follow) under an envelope - each envelope in turn: a page's scripts, forms and proxies come after the login."""
+    out = []
+    for sc in base:
+        if not any(st.get("op") == "browse" for st in sc["steps"]):
+            continue
+        for e2 in ENVELOPES:
+            v = json.loads(json.dumps(sc))
+            v["id"] = "%s/late-%s" % (sc["id"], e2)
+            for st in v["steps"]:
+                st.pop("expect", None)
+                if st.get("op") in ("check", "start"):
+                    st["env"] = e2
+            v["tags"] = list(v.get("tags", [])) + ["envelope"]
+            out.append(v)
+    return out
+
+
 def debug_family(W, n=None):
     """Scenarios run with log_level debug and the logging unit set up as cmd/main.go does (loggers are real, every log argument
     is formatted, main's "config-log" step dumps the configuration): logging must not change what the service does."""
@@ -1108,7 +1142,7 @@ def c05(W, replay=None):
     if not replay:
         design_mc(W, "c05-design", ["TokensOnlyUnderIssued"])
         fam = family(W, "C05")
-        scen = fam + c05_fault_sweep(fam) + replica_family(W) + env_std(W) + debug_family(W) + family(W, "C04", "quick") + attacker_family(W, 400 if W.tier == "thorough" else 80) + decoy_family(W) + parallel_family(W, 200 if W.tier == "thorough" else 20)
+        scen = fam + c05_fault_sweep(fam) + envelope_late(W, fam) + replica_family(W) + env_std(W) + debug_family(W) + family(W, "C04", "quick") + attacker_family(W, 400 if W.tier == "thorough" else 80) + decoy_family(W) + parallel_family(W, 200 if W.tier == "thorough" else 20)
         if W.tier == "thorough":
             scen += random_histories(W, 500)
     return sys_pipeline("C05", W, scen, None, ASSUME_SYS, replay=replay)
@@ -1124,7 +1158,7 @@ def c11(W, replay=None):
                     Checks="{1,2,3,4,5}", MaxSid=4, MaxTok=5, TokLife=1, Kinds='{"app"}')
         ms = sample(W, [m for m in ms if any(s.get("ans") == "badToken" for s in m["steps"])], 1000 if W.tier == "thorough" else 80)
         scen += [conv(m, "c11/race/%d" % i, 1, store=("memory", "redis")[i % 2], probes=finish_all(m) + [PROBE_APP]) for i, m in enumerate(ms)]
-        scen += replica_family(W) + env_std(W) + debug_family(W)
+        scen += replica_family(W) + env_std(W) + debug_family(W) + envelope_late(W, family(W, "C11"))
         scen += cancel_family(W, [x for x in scen if x["id"].startswith(("c11/rotate/n1", "c11/noRotate/n1", "c11/omitId/n1", "c11/badSig/n1"))])
         # every single fault position on the refresh path (store calls, provider, key lookup; Redis: single commands)
         ms = export(W, "c11-faults", Prepared='"expired"', Target=1, MaxApps=1, MaxFaults=2 if W.tier == "thorough" else 1, Checks="{1,2,3,4}", MaxSid=3, MaxTok=4)
